@@ -88,7 +88,7 @@ def plans_for(rng, ops, phm, tier, base):
     if wr:
         for _ in range(2 if not thorough else 6):
             plans.append(("disk_full", [{"from": rng.choice(wr), "kinds": ["WRITE", "OPEN_W"], "pre": "tmp/", "act": "fail",
-                                         "errno": "ENOSPC"}]))
+                                         "errno": rng.choice(["ENOSPC", "ENOSPC", "EINVAL", "EFBIG", "EOPNOTSUPP", "ENOSYS", "EIO"])}]))
         # the n-th scratch rename only
         nren = sum(1 for o in ops if o.kind == "RENAME")
         plans.append(("nth_rename", [{"from": 1, "kinds": ["RENAME"], "pre": "tmp/", "nth": rng.randrange(1, nren + 1),
